@@ -252,6 +252,13 @@ class Cache:
         ):
             return "window function in `filter`"
 
+        if isinstance(node, verbs.Filter) and any(
+            col.ftype(agg_is_window=True) == Ftype.WINDOW for col in self.cols.values()
+        ):
+            # WHERE is evaluated before window functions of the same SELECT, so the window
+            # columns computed so far would only see the rows that pass the filter
+            return "`filter` after a window function was computed in `mutate`"
+
         if isinstance(node, verbs.Summarize):
             if self.group_by and self.group_by != set(self.partition_by):
                 return "nested summarize"
